@@ -56,7 +56,21 @@ mod k {
             }
         }
     }
-    pub const N_CTORS: usize = 14;
+    pub const N_CTORS: usize = 16;
+    fn via_r1cs_value(e: El, as_affine_input: bool) -> El {
+        use ark_r1cs_std::alloc::AllocVar;
+        use ark_r1cs_std::R1CSVar;
+        use ark_relations::r1cs::ConstraintSystem;
+        use decaf377::r1cs::ElementVar;
+        let cs = ConstraintSystem::<Fq>::new_ref();
+        let var = if as_affine_input {
+            let a: Af = e.into();
+            ElementVar::new_input(cs.clone(), || Ok(a)).expect("allocation of a valid element")
+        } else {
+            ElementVar::new_witness(cs.clone(), || Ok(e)).expect("allocation of a valid element")
+        };
+        var.value().expect("value of an honestly allocated variable")
+    }
     pub fn construct(ctx: &Ctx, which: usize, m: &Pt, src: &Obj, rng: &mut impl RngCore) -> (&'static str, Obj) {
         let c = &ctx.c;
         let bytes = c.encode_spec(m).unwrap();
@@ -78,7 +92,9 @@ mod k {
             10 => ("copy", *src),
             11 => ("normalize_batch", Obj::A(El::normalize_batch(&[El::IDENTITY, src.as_el(), El::GENERATOR])[1])),
             12 => ("AffinePoint from other coset member", Obj::A(from_pt(c, &c.torque(m)).into_affine())),
-            _ => ("TryFrom<&[u8]> for Element", Obj::E(El::try_from(&bytes[..]).expect("valid"))),
+            13 => ("TryFrom<&[u8]> for Element", Obj::E(El::try_from(&bytes[..]).expect("valid"))),
+            14 => ("R1CSVar::value() of ElementVar::new_witness", Obj::E(via_r1cs_value(src.as_el(), false))),
+            _ => ("R1CSVar::value() of ElementVar::new_input(AffinePoint)", Obj::E(via_r1cs_value(src.as_el(), true))),
         }
     }
     pub const N_MUTS: usize = 20;
@@ -133,6 +149,9 @@ mod k {
                     ("Element::serialize_compressed", ser),
                     ("Debug for Element", unhex(&format!("{e:?}"), "decaf377::Element(")),
                     ("Display for Element", unhex(&format!("{e}"), "decaf377::Element(")),
+                    ("Debug for Element (alternate {:#?})", unhex(&format!("{e:#?}"), "decaf377::Element(")),
+                    ("Display for Element (alternate {:#})", unhex(&format!("{e:#}"), "decaf377::Element(")),
+                    ("Debug for Element inside a tuple (pretty)", { let t = format!("{:#?}", (*e,)); let inner = t.trim_start_matches('(').trim_end_matches(')').trim().trim_end_matches(',').trim().to_string(); unhex(&inner, "decaf377::Element(") }),
                     ("From<&Element> for Encoding", Encoding::from(e).0.to_vec()),
                 ]
             }
@@ -144,6 +163,7 @@ mod k {
                     ("AffinePoint::serialize_compressed", ser),
                     ("Debug for AffinePoint", unhex(&format!("{a:?}"), "decaf377::AffinePoint(")),
                     ("Display for AffinePoint", unhex(&format!("{a}"), "decaf377::AffinePoint(")),
+                    ("Debug for AffinePoint (alternate {:#?})", unhex(&format!("{a:#?}"), "decaf377::AffinePoint(")),
                     ("AffinePoint -> Element vartime_compress", e.vartime_compress().0.to_vec()),
                     ("AffinePoint::into_group().vartime_compress", a.into_group().vartime_compress().0.to_vec()),
                 ]
@@ -242,13 +262,19 @@ mod k {
             _ => ("copy", *src),
         }
     }
-    pub const N_MUTS: usize = 10;
+    pub const N_MUTS: usize = 15;
     pub fn mutate(ctx: &Ctx, which: usize, dst: &mut Obj, dm: &Pt, src: &Obj, sm: &Pt, k: &B) -> (&'static str, Pt) {
+        use subtle::{Choice, ConditionallySelectable};
         let c = &ctx.c;
         let lk = fr(k);
         let se = src.as_el();
         let Obj::E(e) = dst;
         match which % N_MUTS {
+            10 => { e.conditional_assign(&se, Choice::from(1)); ("E.conditional_assign(src, 1)", sm.clone()) }
+            11 => { e.conditional_assign(&se, Choice::from(0)); ("E.conditional_assign(src, 0)", dm.clone()) }
+            12 => { let mut other = se; El::conditional_swap(e, &mut other, Choice::from(1)); ("conditional_swap(E, src, 1)", sm.clone()) }
+            13 => { let mut other = se; El::conditional_swap(&mut other, e, Choice::from(1)); ("conditional_swap(src, E, 1)", sm.clone()) }
+            14 => { let mut other = se; El::conditional_swap(e, &mut other, Choice::from(0)); ("conditional_swap(E, src, 0)", dm.clone()) }
             0 => { *e += se; ("E += E", c.add(dm, sm)) }
             1 => { *e += &se; ("E += &E", c.add(dm, sm)) }
             2 => { *e -= se; ("E -= E", c.sub(dm, sm)) }
@@ -306,7 +332,7 @@ fn observe(ctx: &Ctx, rec: &mut Rec, prop: &str, modes: u32, r: &Reg) -> Option<
     let d = match affine_of(c, &el) {
         Ok(d) => d,
         Err(why) => {
-            if modes & DENOTE != 0 {
+            if modes & (DENOTE | ENC) != 0 {
                 rec.violation(format!("{prop}:lifecycle:structurally-invalid"), format!("{} after [{hist}] is structurally invalid: {why}", r.o.kind()), json!({"history": hist, "object": el_json(&el)}));
             }
             return None;
@@ -408,6 +434,28 @@ fn observe_pairs(ctx: &Ctx, rec: &mut Rec, prop: &str, regs: &[Reg]) {
     }
 }
 
+/// ENC mode: objects that the library's own `==` calls equal must have identical encodings (all encoders)
+fn observe_pairs_enc(rec: &mut Rec, prop: &str, regs: &[Reg]) {
+    let encs: Vec<Option<Vec<(&'static str, Vec<u8>)>>> = regs.iter().map(|r| { let o = r.o; guarded(move || encoders(&o)).ok() }).collect();
+    for i in 0..regs.len() {
+        for j in (i + 1)..regs.len() {
+            let (oi, oj) = (regs[i].o, regs[j].o);
+            let Ok((e1, e2)) = guarded(move || equal(&oi, &oj)) else { continue };
+            if !(e1 && e2) {
+                continue;
+            }
+            rec.evals += 1;
+            if let (Some(a), Some(bb)) = (&encs[i], &encs[j]) {
+                let (fa, fb) = (&a[0].1, &bb[0].1);
+                if fa != fb {
+                    rec.violation(format!("{prop}:lifecycle:equal-but-encoded-differently"), format!("two objects compare == but encode as {} and {}: [{}] vs [{}]", hx(fa), hx(fb), regs[i].hist.join(" ; "), regs[j].hist.join(" ; ")),
+                        json!({"a": el_json(&oi.as_el()), "b": el_json(&oj.as_el())}));
+                }
+            }
+        }
+    }
+}
+
 /// run `nprog` lifecycle programs on worker `w` of `n`
 pub fn programs(ctx: &Ctx, rec: &mut Rec, prop: &str, modes: u32, w: usize, n: usize, nprog: usize, zoo: &[SE]) {
     let c = &ctx.c;
@@ -501,6 +549,9 @@ pub fn programs(ctx: &Ctx, rec: &mut Rec, prop: &str, modes: u32, w: usize, n: u
         }
         if modes & EQHASH != 0 {
             observe_pairs(ctx, rec, prop, &regs);
+        }
+        if modes & ENC != 0 {
+            observe_pairs_enc(rec, prop, &regs);
         }
         if pi < 2 {
             rec.sample(json!({"lifecycle_program": pi, "registers": regs.iter().map(|r| json!({"kind": r.o.kind(), "history": r.hist.join(" ; "), "model_x": hexs(&r.m.x)})).collect::<Vec<_>>()}));
